@@ -3,7 +3,7 @@ Reading of Python's builtins used by the mini translator `tools/extract/_pylean.
 imports: the definitions are executable and may be linked into the driver).
 
 Conventions of the translation (the *trusted reading of Python*, conformance-tested against CPython by the
-driver request `py_prelude`, see `Driver/PyPrelude.lean` and `tools/props/xlate_tie.py`):
+driver request `py_prelude`, see `Driver/Xlate.lean` and `tools/props/xlate_tie.py`):
 
 * unbounded non-negative `int` ↦ `Nat`, `int` that may be negative ↦ `Int`, `str` ↦ `String`,
   `list`/`tuple` of one element type ↦ `List`, fixed-arity tuples ↦ products, `bool` ↦ `Bool`;
